@@ -259,6 +259,28 @@ class World:
         self.model[d.sd_hash] = B(d.sd_hash, sd_len, BASE_TIME, True, True, "sd", n, True, True)
         self.out.label("has:mine_created", "has:mine")
 
+    async def redownload(self, b):
+        """a content blob that an earlier pass removed is fetched again (the stream is still known): it completes like any
+        downloaded blob and belongs to the same stream as before"""
+        self.make_file(b.hash, b.len)
+        blob = self.bm.get_blob(b.hash, b.len)
+        blob.added_on = b.added_on
+        await self.bm.blob_completed(blob)
+        b.alive = True
+        b.cached = True
+        self.out.label("redownloaded-after-cleanup")
+
+    async def cancelled_pass(self):
+        """a clean() request is cancelled right after it started (client went away), before anything was removed"""
+        t = asyncio.ensure_future(self.dsm.clean())
+        await asyncio.sleep(0)
+        t.cancel()
+        try:
+            await t
+        except asyncio.CancelledError:
+            pass
+        self.out.label("pass-cancelled-at-start")
+
     async def add_network(self, spec, live):
         self.nnet += 1
         h = _h("net%d" % self.nnet)
@@ -423,6 +445,14 @@ async def _run(case, out, tmp):
                 await w.add_stream(p["add_stream"], live=True)
             if i and (p.get("add_network") or p.get("add_stream")):
                 out.label("added-between-passes")
+            for _ in range(p.get("redownload", 0) if i else 0):
+                dead = sorted((b for b in w.model.values() if not b.alive and b.cls == "content" and not b.mine and b.finished
+                               and b.file_row), key=lambda b: b.hash)
+                if not dead:
+                    break
+                await w.redownload(dead[0])
+            if p.get("cancel_first"):
+                await w.cancelled_pass()
             near = (await w.cleanup_pass(p, limits)) or near
         out.label("passes:%d" % len(case["passes"]))
         classes = {("mine" if b.mine else b.cls) for b in w.model.values() if b.cls != "sd"}
@@ -471,10 +501,12 @@ def limit_strategy():
 
 
 def pass_strategy():
-    return st.builds(lambda split, re_, an, as_: {"split": split, "re": re_, "add_network": an, "add_stream": as_},
+    return st.builds(lambda split, re_, an, as_, rd, cf: {"split": split, "re": re_, "add_network": an, "add_stream": as_,
+                                                          "redownload": rd, "cancel_first": cf},
                      st.booleans(), st.sampled_from([False, False, True]),
                      st.one_of(st.just([]), st.lists(blob_strategy(), min_size=0, max_size=3)),
-                     st.one_of(st.none(), st.none(), stream_strategy(["dl_file", "dl_file", "dl_nofile", "mine", "mine_created", "mine_created"])))
+                     st.one_of(st.none(), st.none(), stream_strategy(["dl_file", "dl_file", "dl_nofile", "mine", "mine_created", "mine_created"])),
+                     st.sampled_from([0, 0, 1, 2, 3]), st.sampled_from([False, False, False, True]))
 
 
 def case_strategy(tier):
@@ -494,5 +526,6 @@ PARTS = [
                     "network:within", "network:at-limit", "deleted:content", "deleted:network", "has:mine",
                     "has:mine_upd", "has:dl_file", "has:dl_nofile", "has:network", "has:pending",
                     "added-between-passes", "content:cannot-reach-limit", "has:mine_created", "limit_source:arguments",
-                    "limit_source:environment", "limit_source:persisted", "set_via:update_config")),
+                    "limit_source:environment", "limit_source:persisted", "set_via:update_config", "redownloaded-after-cleanup",
+                    "pass-cancelled-at-start")),
 ]
